@@ -150,7 +150,9 @@ Print Assumptions C09_gc_idempotent.
 
 (* ---- Delete ---- *)
 
-(* Delete x with AutoGC on, x stored: for every iteration order it returns Ok and removes
+(* Delete x with AutoGC on, x stored, in a state with [wfm] (graph nodes that are manifests or
+   have a subject are stored; every state the store can reach: C09_persist_histories): for
+   every iteration order it returns Ok and removes
    exactly [Gone]: the least set containing x, closed under "untagged manifest of the store
    whose subject (a manifest) was removed and all of whose holders were removed" and
    "untagged node of the store that had predecessors, all of which were removed" -- from the
@@ -162,7 +164,7 @@ Print Assumptions C09_gc_idempotent.
    does not keep its subject alive through the subject field, every other link does. *)
 Theorem C09_delete_exact :
   forall succ subject manifest, acyclic succ -> subject_listed succ subject ->
-  forall st x, wf st -> autogc st = true -> In x (blobs st) ->
+  forall st x, wfm subject manifest st -> autogc st = true -> In x (blobs st) ->
   forall ord, reorders ord ->
   exists st',
     delete succ subject manifest cfg_fixed ord st x = (st', Ok) /\
@@ -190,7 +192,7 @@ Print Assumptions C09_delete_exact.
 (* the work queue is exhausted within its fuel: Delete terminates *)
 Theorem C09_delete_queue_terminates :
   forall succ subject manifest, acyclic succ -> subject_listed succ subject ->
-  forall st x, wf st -> autogc st = true -> In x (blobs st) ->
+  forall st x, wfm subject manifest st -> autogc st = true -> In x (blobs st) ->
   forall ord, reorders ord ->
   snd (delete succ subject manifest cfg_fixed ord st x) <> EHang.
 Proof. exact delete_terminates_final. Qed.
@@ -354,7 +356,7 @@ Print Assumptions C09_delete_subject_and_entry_refuted.
 (* the outcome of Delete (AutoGC) and of GC does not depend on Go's map iteration orders *)
 Theorem C09_order_independent :
   forall succ subject manifest, acyclic succ -> subject_listed succ subject ->
-  (forall st x, wf st -> autogc st = true -> In x (blobs st) ->
+  (forall st x, wfm subject manifest st -> autogc st = true -> In x (blobs st) ->
      forall o1 o2, reorders o1 -> reorders o2 ->
      let a := fst (delete succ subject manifest cfg_fixed o1 st x) in
      let b := fst (delete succ subject manifest cfg_fixed o2 st x) in
@@ -373,7 +375,7 @@ Print Assumptions C09_order_independent.
    order) and, with everything reachable from it, every GC -- complete or cancelled *)
 Theorem C09_tagged_kept :
   forall succ subject manifest, acyclic succ -> subject_listed succ subject ->
-  forall st n t, wf st -> In (RTag t, n) (idx st) -> In n (blobs st) ->
+  forall st n t, wfm subject manifest st -> In (RTag t, n) (idx st) -> In n (blobs st) ->
   (forall x ord, reorders ord -> x <> n ->
      let st' := fst (delete succ subject manifest cfg_fixed ord st x) in
      In n (blobs st') /\ In (RTag t, n) (idx st')) /\
@@ -419,18 +421,66 @@ Proof. exact index_json_current_final. Qed.
 Print Assumptions C09_index_json_current.
 
 (* every state of every history of the persistence layer -- complete and cancelled GCs,
-   SaveIndex, AutoSaveIndex on or off, reloads from whatever index.json holds, failed pushes --
-   is well-formed (the hypothesis of C09_delete_exact / C09_tagged_kept) and [is_tagged] means
-   "carries a tag" there; the one modelled operation after which this fails is PDeleteAlt
-   (Delete of a layer with the descriptor Resolve(<digest>) returns: the graph keeps a node
-   without content, C09_delete_alt_stale_node) -- run and compared, outside these theorems *)
+   SaveIndex, AutoSaveIndex on or off, reloads from whatever index.json holds, failed pushes,
+   and Deletes of plain layers/configs by the blob descriptor Resolve(<digest>) returns
+   (PDeleteAlt; [plain_alt]: the deleted node is no manifest and has no subject) -- satisfies
+   [wfm], the hypothesis of C09_delete_exact / C09_tagged_kept / C09_order_independent: the
+   graph nodes that are manifests or have a subject are stored (a layer may be a stale graph
+   node without content: C09_delete_alt_stale_node); and [is_tagged] means "carries a tag" *)
 Theorem C09_persist_histories :
   forall succ subject manifest, acyclic succ -> subject_listed succ subject ->
-  forall kl ops, Forall (fun o => forall n, o <> PDeleteAlt n) ops ->
+  forall kl ops, Forall (plain_alt subject manifest) ops ->
   let p := fold_left (fun p o => fst (pstep succ subject manifest cfg_fixed kl p o)) ops pinit in
-  wf (mem p) /\ (forall n, is_tagged (mem p) n = true <-> exists t, In (RTag t, n) (idx (mem p))).
-Proof. exact phistories_final. Qed.
+  wfm subject manifest (mem p) /\
+  (forall n, is_tagged (mem p) n = true <-> exists t, In (RTag t, n) (idx (mem p))).
+Proof. exact phistories2_final. Qed.
 Print Assumptions C09_persist_histories.
+
+(* [wfm] is weaker than [wf] (C09_histories, C09_store_wf give [wf]) *)
+Theorem C09_wf_wfm : forall subject manifest st, wf st -> wfm subject manifest st.
+Proof. exact wf_wfm_final. Qed.
+Print Assumptions C09_wf_wfm.
+
+(* The Delete theorems without a premise on the state: in EVERY state of every history of the
+   persistence layer (pushes, tags, deletes, complete/cancelled/blocked GCs, saves, reloads,
+   failed pushes, Deletes of plain leaves by the blob descriptor), Delete x of a stored x with
+   AutoGC on returns Ok and removes exactly [Gone] from storage and graph and x's tags from
+   the index, for every iteration order, with order-independent outcome; and a stored tagged
+   descriptor survives every Delete of another descriptor (AutoGC on or off) *)
+Theorem C09_delete_in_histories :
+  forall succ subject manifest,
+  acyclic succ -> subject_listed succ subject ->
+  forall kl ops, Forall (plain_alt subject manifest) ops ->
+  let st := mem (fold_left (fun p o => fst (pstep succ subject manifest cfg_fixed kl p o)) ops pinit) in
+  (forall x ord, autogc st = true -> In x (blobs st) -> reorders ord ->
+     exists st',
+       delete succ subject manifest cfg_fixed ord st x = (st', Ok) /\
+       (forall y, In y (blobs st') <-> In y (blobs st) /\ ~ Gone succ subject manifest st x y) /\
+       (forall y, In y (gnodes st') <-> In y (gnodes st) /\ ~ Gone succ subject manifest st x y) /\
+       (forall t n, In (RTag t, n) (idx st') <-> In (RTag t, n) (idx st) /\ n <> x) /\
+       (forall r, ~ In (r, x) (idx st'))) /\
+  (forall n t x ord, In (RTag t, n) (idx st) -> In n (blobs st) -> reorders ord -> x <> n ->
+     let st' := fst (delete succ subject manifest cfg_fixed ord st x) in
+     In n (blobs st') /\ In (RTag t, n) (idx st')) /\
+  (forall x o1 o2, autogc st = true -> In x (blobs st) -> reorders o1 -> reorders o2 ->
+     let a := fst (delete succ subject manifest cfg_fixed o1 st x) in
+     let b := fst (delete succ subject manifest cfg_fixed o2 st x) in
+     (forall y, In y (blobs a) <-> In y (blobs b)) /\ (forall y, In y (gnodes a) <-> In y (gnodes b)) /\
+     (forall t n, In (RTag t, n) (idx a) <-> In (RTag t, n) (idx b))).
+Proof. exact reachable_delete_final. Qed.
+Print Assumptions C09_delete_in_histories.
+
+(* Delete of the layer 0 with the blob descriptor leaves the graph node 0 without content
+   (the state is not [wf], it is [wfm]); GC removes the stale node; a second such Delete is
+   ErrNotFound.  C09_delete_after_alt: in that state Delete of the image 1 (AutoGC on)
+   removes 1 and its referrer 2, as C09_delete_exact says -- the stale node is no storage *)
+Example C09_delete_after_alt :
+  let p := prun_w [PO (OAuto true); PO (OPush 0); PO (OPush 1); PO (OPush 2); PDeleteAlt 0] in
+  let r := pstep succ_w subject_w manifest_w cfg_fixed true p (PO (ODelete 1)) in
+  blobs (mem p) = [2; 1] /\ gnodes (mem p) = [2; 1; 0] /\
+  snd r = Ok /\ blobs (mem (fst r)) = [] /\ gnodes (mem (fst r)) = [0].
+Proof. vm_compute. repeat split. Qed.
+Print Assumptions C09_delete_after_alt.
 
 Theorem C09_delete_alt_stale_node :
   let p := prun_w [PO (OPush 0); PO (OPush 1); PDeleteAlt 0] in
